@@ -2,7 +2,7 @@
    documented-format model (Format.enc / Format.dec) and the certified judgement layout_ok. *)
 From Coq Require Import ZArith List Bool Lia.
 Import ListNotations.
-From XO Require Import Slots Strides BufOps Types Format Check LayoutProofs.
+From XO Require Import Slots Strides BufOps Types Format Check LayoutProofs RoundTrip.
 Open Scope Z_scope.
 
 (* an image occupies exactly [off, off+len img): placing it changes no other byte *)
@@ -21,9 +21,17 @@ Theorem C03_size_is_extent : forall c, layout_ok c = None ->
     cells_match img (lc_bytes c) = true /\
     exists v, dec (lc_ty c) (lc_bytes c) 0 = Some (v, lc_size c) /\ val_eqb v (lc_val c) = true.
 Proof. exact layout_ok_sound. Qed.
+(* the size the decoder reports for the image of a value is the extent of that image, for every type and value *)
+Theorem C03_reported_size_is_extent_general : forall t v img m off,
+  enc t v = Some img -> sits img m off -> len img < 2^62 -> exists v', dec t m off = Some (v', len img).
+Proof. exact dec_enc_size. Qed.
+Theorem C03_static_size : forall t v img s, enc t v = Some img -> csize t = Some s -> len img = s.
+Proof. exact enc_static_size. Qed.
 Theorem C03_slot_rounding : forall n, n <= slot n < n + 8 /\ slot n mod 8 = 0.
 Proof. exact slot_spec. Qed.
 Print Assumptions C03_write_frame.
 Print Assumptions C03_parts_nested_disjoint.
 Print Assumptions C03_size_is_extent.
 Print Assumptions C03_slot_rounding.
+Print Assumptions C03_reported_size_is_extent_general.
+Print Assumptions C03_static_size.
